@@ -1,0 +1,103 @@
+//! Verification hooks. Only compiled with `--cfg tokio_rs_bytes_verif`; never
+//! part of a normal build of the crate.
+//!
+//! * `point(id)`: an optional callback invoked between the crate's atomic
+//!   steps. Only `Relaxed` accesses are used here so that the hook never adds
+//!   a happens-before edge of its own.
+//! * `Repr`: a read-only description of a handle's backing representation,
+//!   meant to be read at quiescent points only.
+
+use core::sync::atomic::{AtomicPtr, Ordering};
+
+static POINT_HOOK: AtomicPtr<()> = AtomicPtr::new(core::ptr::null_mut());
+
+/// Installs (or removes) the callback invoked at every hook point.
+pub fn set_point_hook(f: Option<fn(u32)>) {
+    let p = match f {
+        Some(f) => f as *mut (),
+        None => core::ptr::null_mut(),
+    };
+    POINT_HOOK.store(p, Ordering::Relaxed);
+}
+
+#[inline]
+pub(crate) fn point(id: u32) {
+    let p = POINT_HOOK.load(Ordering::Relaxed);
+    if !p.is_null() {
+        // SAFETY: only `set_point_hook` stores here, and it stores a `fn(u32)`.
+        let f: fn(u32) = unsafe { core::mem::transmute::<*mut (), fn(u32)>(p) };
+        f(id);
+    }
+}
+
+/// Hook point identifiers.
+pub mod pt {
+    #![allow(missing_docs)]
+    pub const CLONE_VEC_BEFORE_CAS: u32 = 1;
+    pub const CLONE_VEC_CAS_OK: u32 = 2;
+    pub const CLONE_VEC_CAS_LOST: u32 = 3;
+    pub const CLONE_ARC_ENTRY: u32 = 4;
+    pub const RELEASE_LAST: u32 = 5;
+    pub const RELEASE_NOT_LAST: u32 = 6;
+    pub const OWNED_DROP_AFTER_SUB: u32 = 7;
+    pub const TO_VEC_CAS_OK: u32 = 8;
+    pub const TO_VEC_CAS_FAIL: u32 = 9;
+    pub const TO_MUT_UNIQUE: u32 = 10;
+    pub const TO_MUT_SHARED: u32 = 11;
+    pub const PROMOTABLE_TO_VEC_LOADED: u32 = 12;
+    pub const PROMOTABLE_TO_MUT_LOADED: u32 = 13;
+    pub const PROMOTABLE_CLONE_LOADED: u32 = 14;
+    pub const MUT_RELEASE_LAST: u32 = 15;
+    pub const MUT_RELEASE_NOT_LAST: u32 = 16;
+    pub const RESERVE_UNIQUE: u32 = 18;
+    pub const RESERVE_NOT_UNIQUE: u32 = 19;
+    pub const V_TO_VEC_UNIQUE: u32 = 20;
+    pub const V_TO_VEC_SHARED: u32 = 21;
+    pub const V_TO_MUT_UNIQUE: u32 = 22;
+    pub const V_TO_MUT_SHARED: u32 = 23;
+    pub const MUT_INTO_VEC_UNIQUE: u32 = 24;
+    pub const MUT_INTO_VEC_SHARED: u32 = 25;
+    pub const INCREMENT_SHARED_ENTRY: u32 = 26;
+    pub const V_CLONE_ENTRY: u32 = 27;
+    pub const PROMOTE_TO_SHARED: u32 = 28;
+    pub const RELEASE_ENTRY: u32 = 30;
+    pub const MUT_RELEASE_ENTRY: u32 = 31;
+    pub const OWNED_DROP_ENTRY: u32 = 32;
+    pub const RESERVE_ARC_ENTRY: u32 = 33;
+    pub const OWNED_CLONE_ENTRY: u32 = 34;
+    pub const MAX: u32 = 40;
+}
+
+/// Backing representation of a handle.
+#[allow(missing_docs)]
+#[derive(Debug, Clone, Copy, PartialEq, Eq, Hash, PartialOrd, Ord)]
+pub enum Kind {
+    Static,
+    Owned,
+    PromotableEven,
+    PromotableOdd,
+    Shared,
+    SharedV,
+    MutVec,
+    MutArc,
+}
+
+/// What a handle looks like inside, read with `Relaxed` loads.
+#[allow(missing_docs)]
+#[derive(Debug, Clone, Copy, PartialEq, Eq)]
+pub struct Repr {
+    pub kind: Kind,
+    /// promotable handle that has not been promoted yet
+    pub tagged_vec: bool,
+    /// address of the control block (0 if none)
+    pub ctrl: usize,
+    /// the stored reference count, if there is a control block
+    pub refcnt: Option<usize>,
+    /// front offset of an inline-Vec `BytesMut`
+    pub vec_off: usize,
+    /// start and capacity of the byte buffer as the handle would free it (0 if unknown)
+    pub buf_start: usize,
+    pub buf_cap: usize,
+    /// `original_capacity_repr` of a `BytesMut`
+    pub orig_cap_repr: usize,
+}
